@@ -91,6 +91,7 @@ pub(super) fn poll_connect(
             peer,
             snd_nxt: isn.wrapping_add(1),
             snd_una: isn.wrapping_add(1),
+            snd_max: isn.wrapping_add(1),
             snd_wnd: DEFAULT_WINDOW,
             rcv_nxt: 0,
             send_buf: BytesMut::new(),
@@ -356,8 +357,14 @@ fn handle_established(
         // bytes drained or the window grew.
         if s.flags.ack {
             let acked = s.ack.wrapping_sub(tcb.snd_una);
-            let in_flight = tcb.snd_nxt.wrapping_sub(tcb.snd_una);
+            // Bound by SND.MAX: after a go-back-N rewind `snd_nxt` is
+            // behind what the peer may legitimately acknowledge.
+            let in_flight = tcb.snd_max.wrapping_sub(tcb.snd_una);
             if acked > 0 && acked <= in_flight {
+                if acked > tcb.snd_nxt.wrapping_sub(tcb.snd_una) {
+                    // The ACK passes the rewound `snd_nxt`: resume there.
+                    tcb.snd_nxt = s.ack;
+                }
                 // FIN (if sent) sits at `fin_seq` and consumes one seq
                 // past the data. Don't try to drain buffer bytes for
                 // the FIN's byte.
@@ -520,6 +527,7 @@ fn accept_syn(
             peer: remote,
             snd_nxt: isn.wrapping_add(1),
             snd_una: isn.wrapping_add(1),
+            snd_max: isn.wrapping_add(1),
             snd_wnd: s.window,
             rcv_nxt: s.seq.wrapping_add(1),
             send_buf: BytesMut::new(),
@@ -1333,6 +1341,14 @@ pub(super) fn segment_all(k: &mut Kernel) {
     }
 }
 
+/// Keep `snd_max` at the highest `snd_nxt` reached (compared relative
+/// to `snd_una`, so sequence-number wraparound is harmless).
+fn advance_snd_max(tcb: &mut Tcb) {
+    if tcb.snd_nxt.wrapping_sub(tcb.snd_una) > tcb.snd_max.wrapping_sub(tcb.snd_una) {
+        tcb.snd_max = tcb.snd_nxt;
+    }
+}
+
 fn segment_one(k: &mut Kernel, fd: Fd) {
     let local = {
         let st = k.lookup(fd).unwrap();
@@ -1356,12 +1372,14 @@ fn segment_one(k: &mut Kernel, fd: Fd) {
                 let payload = Bytes::copy_from_slice(&tcb.send_buf[start..end]);
                 let seq = tcb.snd_nxt;
                 tcb.snd_nxt = tcb.snd_nxt.wrapping_add(n as u32);
+                advance_snd_max(tcb);
                 (seq, payload, false)
             } else if fin_pending && wnd_remaining > 0 {
                 // Emit the FIN. It occupies one sequence number but
                 // carries no payload.
                 let seq = tcb.snd_nxt;
                 tcb.snd_nxt = tcb.snd_nxt.wrapping_add(1);
+                advance_snd_max(tcb);
                 (seq, Bytes::new(), true)
             } else {
                 return;
